@@ -388,6 +388,49 @@ for acc in ('is_rx_timeout', 'rx_mark', 'set_tx_last_message', 'set_rx_last_mess
         errors.append('runtime/j1939.rs NetDriverContext::%s is no longer a single lock().unwrap() access' % acc)
 defs.append(('ctx_accessors_single_locked_access', 'bool', 'true', 'runtime/j1939.rs: every NetDriverContext accessor is one self.detail.lock().unwrap() critical section'))
 
+# ---- the premise of abstracting from time: the modelled code waits and gives up exactly where the model
+# says it does. Per file, in source order, every timing / readiness-dependent primitive (comments and the
+# test module stripped): 1 timeout( 2 sleep( 3 try_lock( 4 try_send( 5 .try_recv() 6 try_read/try_write
+# 7 .elapsed( 8 Instant::now 9 interval( 10 select! 11 .tick()
+_WAITP = [(1, r'(?<![\w])timeout\s*\('), (2, r'(?<![\w])sleep\s*\('), (3, r'\btry_lock\s*\('), (4, r'\btry_send\s*\('),
+          (5, r'\.try_recv\s*\(\s*\)'), (6, r'\btry_(?:read|write)\w*\s*\('), (7, r'\.elapsed\s*\('), (8, r'Instant::now'),
+          (9, r'(?<![\w])interval(?:_at)?\s*\('), (10, r'select!'), (11, r'\.tick\s*\(\s*\)')]
+
+
+def waits(defname, rel, base=RT):
+    try:
+        t = _strip_comments(src(rel, base))
+    except Exception as e:
+        errors.append('%s: %s unreadable (%s)' % (defname, rel, e))
+        return
+    t = t.split('#[cfg(test)]')[0]
+    hits = []
+    for code, pat in _WAITP:
+        for m in re.finditer(pat, t):
+            hits.append((m.start(), code))
+    defs.append((defname, 'list Z', '[' + '; '.join(str(c) for _, c in sorted(hits)) + ']',
+                 '%s: timing / readiness primitives in source order' % rel))
+
+
+waits('waits_server', 'service/server.rs')
+waits('waits_protocol', 'protocol/mod.rs')
+waits('waits_client', 'protocol/client.rs')
+waits('waits_authority', 'service/authority.rs')
+waits('waits_net', 'net.rs')
+waits('waits_can', 'can.rs')
+waits('waits_runtime', 'runtime/mod.rs')
+waits('waits_j1939', 'runtime/j1939.rs')
+waits('waits_director', 'service/director.rs')
+waits('waits_hydraulic', 'driver/net/hydraulic.rs')
+waits('waits_volvo', 'driver/net/volvo_ems.rs')
+waits('waits_engine', 'driver/net/engine.rs')
+waits('waits_governor', 'driver/governor.rs')
+waits('waits_input_main', 'main.rs', os.path.join(repo, 'glonax-input', 'src'))
+waits('waits_input_input', 'input.rs', os.path.join(repo, 'glonax-input', 'src'))
+waits('waits_input_joystick', 'joystick.rs', os.path.join(repo, 'glonax-input', 'src'))
+waits('waits_server_main', 'main.rs', os.path.join(repo, 'glonax-server', 'src'))
+waits('waits_control_main', 'main.rs', os.path.join(repo, 'glonax-control', 'src'))
+
 EXTRA = os.path.join(os.path.dirname(os.path.abspath(__file__)), 'rs2v_extra.py')
 if os.path.exists(EXTRA):
     exec(compile(open(EXTRA).read(), EXTRA, 'exec'))
